@@ -1,8 +1,10 @@
-/- Line-protocol driver for the Alloc component (stub; see tools/AGENT_GUIDE.md). -/
+/- Line-protocol driver for the Alloc component (verb OOM); handlers are in Driver/Alloc.lean. -/
+import Driver.Alloc
+
 partial def loop (h : IO.FS.Stream) (out : IO.FS.Stream) : IO Unit := do
   let line ← h.getLine
   if line.isEmpty then return ()
-  out.putStrLn "BADVERB"
+  out.putStrLn (Driver.AllocDrv.dispatch line)
   loop h out
 
 def main : IO Unit := do
